@@ -12,12 +12,14 @@ pub trait IntoNeighborsDirected : IntoNeighbors {
     /// one consistent graph: the outgoing neighbours are the successors, and b is an incoming neighbour of a exactly
     /// when a is a successor of b; neighbours are nodes
     proof fn dir_law(self, a: Self::NodeId, b: Self::NodeId)
+        requires self.inv()
         ensures self.nbrs(a, Direction::Outgoing) == self.succ(a),
             self.nbrs(a, Direction::Incoming).contains(b) <==> (self.is_node(b) && self.succ(b).contains(a)),
             forall|i: int| 0 <= i < self.nbrs(a, Direction::Incoming).len() ==> self.is_node(#[trigger] self.nbrs(a, Direction::Incoming)[i])/*-*/;
     fn neighbors_directed(self, n: Self::NodeId, d: Direction)
         -> (r: Self::NeighborsDirected)
-        /*+*/ensures r.obeys_prophetic_iter_laws(), r.decrease() is Some, r.remaining() == self.nbrs(n, d)/*-*/;   // [neighbors_directed_is_nbrs]
+        /*+*/requires self.inv()
+        ensures r.obeys_prophetic_iter_laws(), r.decrease() is Some, r.remaining() == self.nbrs(n, d)/*-*/;   // [neighbors_directed_is_nbrs]
 }
 //@ end
 
@@ -47,6 +49,7 @@ where
 {
     type Neighbors = G::NeighborsDirected;
     /*+*/
+    open spec fn inv(self) -> bool { self.0.inv() }
     open spec fn is_node(self, a: G::NodeId) -> bool { self.0.is_node(a) }
     /// the reversed graph: the successors of a are its incoming neighbours in G
     open spec fn succ(self, a: G::NodeId) -> Seq<G::NodeId> { self.0.nbrs(a, Direction::Incoming) }
